@@ -27,6 +27,7 @@ type Solver struct {
 	Name    string
 	cmd     *exec.Cmd
 	in      io.WriteCloser
+	w       *bufio.Writer
 	out     *bufio.Reader
 	defined map[int]bool // term IDs with a global define-fun / declare-const
 	stack   []*Term      // asserted conjuncts, one push level each
@@ -80,6 +81,7 @@ func (s *Solver) start() error {
 		return err
 	}
 	s.in, s.out = in, bufio.NewReaderSize(out, 1<<16)
+	s.w = bufio.NewWriterSize(in, 1<<16)
 	s.defined = map[int]bool{}
 	s.stack = nil
 	s.send("(set-option :global-declarations true)")
@@ -103,8 +105,8 @@ func (s *Solver) send(line string) {
 	if s.Log != nil {
 		fmt.Fprintln(s.Log, line)
 	}
-	io.WriteString(s.in, line)
-	io.WriteString(s.in, "\n")
+	s.w.WriteString(line)
+	s.w.WriteByte('\n')
 }
 
 // define emits declarations/definitions for t and its sub-DAG (iteratively, children first).
@@ -143,6 +145,7 @@ func (s *Solver) define(t *Term) {
 }
 
 func (s *Solver) readLine() (string, error) {
+	s.w.Flush()
 	for {
 		line, err := s.out.ReadString('\n')
 		if err != nil {
@@ -270,6 +273,7 @@ func constKey(t *Term) string { return Ref(t) }
 
 // readSexp reads one balanced s-expression (possibly multi-line).
 func (s *Solver) readSexp() (string, error) {
+	s.w.Flush()
 	var sb strings.Builder
 	depth, started := 0, false
 	inBar := false
